@@ -71,6 +71,22 @@ theorem Rel.bind {γ δ : Type} {S : γ → δ → Prop} :
     intro q f g; cases q <;> simp [Rel, SProg.bind]
     intro h1 h2 h3 hk; exact ⟨h1, h2, ih _ f g h3 hk⟩
 
+/-- post-processing the specification's leaves -/
+theorem Rel.map_right {γ : Type} {R' : α → γ → Prop} (f : β → γ) :
+    ∀ (p : SProg α) (q : SProg β), Rel R p q → (∀ a b, R a b → R' a (f b)) →
+      Rel R' p (q.bind fun b => .ret (f b)) := by
+  intro p
+  induction p with
+  | ret a => intro q; cases q <;> simp [Rel, SProg.bind]; intro h hk; exact hk _ _ h
+  | fail e => intro q; cases q <;> simp [Rel, SProg.bind]; intro h _; exact h
+  | unspecified => intro q; cases q <;> simp [Rel, SProg.bind]
+  | load a k ih =>
+    intro q; cases q <;> simp [Rel, SProg.bind]
+    intro h1 h2 hk; exact ⟨h1, fun b => ih b _ (h2 b) hk⟩
+  | store a v m k ih =>
+    intro q; cases q <;> simp [Rel, SProg.bind]
+    intro h1 h2 h3 hk; exact ⟨h1, h2, ih _ h3 hk⟩
+
 theorem Rel.of_eq {p : SProg α} (hR : ∀ a, R' a a) : Rel (R := R') p p := by
   induction p with
   | ret a => simp [Rel]; exact hR a
@@ -92,4 +108,74 @@ theorem Prog.plain_bind {α β : Type} (p : Prog α) (f : α → Prog β) :
   | load a k ih => simp [Prog.bind, Prog.plain, SProg.bind, ih]
   | store a v r k ih => simp [Prog.bind, Prog.plain, SProg.bind, ih]
 
+end Verif
+
+namespace Verif
+namespace SProg
+
+/-- two specification trees of the same shape (same accesses, same stored values and masks)
+    whose leaves are related by `S` -/
+def Sim {β γ : Type} (S : β → γ → Prop) : SProg β → SProg γ → Prop
+  | .ret a, q => match q with
+      | .ret b => S a b
+      | _ => False
+  | .fail e, q => match q with
+      | .fail e' => e = e'
+      | _ => False
+  | .unspecified, q => match q with
+      | .unspecified => True
+      | _ => False
+  | .load a k, q => match q with
+      | .load a' k' => a = a' ∧ ∀ b, Sim S (k b) (k' b)
+      | _ => False
+  | .store a v m k, q => match q with
+      | .store a' v' m' k' => a = a' ∧ v = v' ∧ m = m' ∧ Sim S k k'
+      | _ => False
+
+theorem Rel.trans_sim {α β γ : Type} {R : α → β → Prop} {S : β → γ → Prop} {R' : α → γ → Prop}
+    (h : ∀ a b c, R a b → S b c → R' a c) :
+    ∀ (p : SProg α) (q : SProg β) (q' : SProg γ), Rel R p q → Sim S q q' → Rel R' p q' := by
+  intro p
+  induction p with
+  | ret a =>
+    intro q q'; cases q <;> cases q' <;> simp [Rel, Sim]
+    intro h1 h2; exact h _ _ _ h1 h2
+  | fail e =>
+    intro q q'; cases q <;> cases q' <;> simp [Rel, Sim]
+    intro h1 h2; exact h1.trans h2
+  | unspecified => intro q q'; cases q <;> cases q' <;> simp [Rel, Sim]
+  | load a k ih =>
+    intro q q'; cases q <;> cases q' <;> simp [Rel, Sim]
+    intro h1 h2 h3 h4; exact ⟨h1.trans h3, fun b => ih b _ _ (h2 b) (h4 b)⟩
+  | store a v m k ih =>
+    intro q q'; cases q <;> cases q' <;> simp [Rel, Sim]
+    intro h1 h2 h3 h4 h5 h6 h7
+    subst h5; subst h6
+    exact ⟨h1.trans h4, h2, ih _ _ h3 h7⟩
+
+theorem Sim.bind {β γ β' γ' : Type} {S : β → γ → Prop} {S' : β' → γ' → Prop} :
+    ∀ (p : SProg β) (q : SProg γ) (f : β → SProg β') (g : γ → SProg γ'),
+      Sim S p q → (∀ a b, S a b → Sim S' (f a) (g b)) → Sim S' (p.bind f) (q.bind g) := by
+  intro p
+  induction p with
+  | ret a => intro q f g; cases q <;> simp [Sim, SProg.bind]; intro h hk; exact hk _ _ h
+  | fail e => intro q f g; cases q <;> simp [Sim, SProg.bind]; intro h _; exact h
+  | unspecified => intro q f g; cases q <;> simp [Sim, SProg.bind]
+  | load a k ih =>
+    intro q f g; cases q <;> simp [Sim, SProg.bind]
+    intro h1 h2 hk; exact ⟨h1, fun b => ih b _ f g (h2 b) hk⟩
+  | store a v m k ih =>
+    intro q f g; cases q <;> simp [Sim, SProg.bind]
+    intro h1 h2 h3 h4 hk; exact ⟨h1, h2, h3, ih _ f g h4 hk⟩
+
+theorem Sim.refl {β : Type} {S : β → β → Prop} (hS : ∀ a, S a a) : ∀ p : SProg β, Sim S p p := by
+  intro p
+  induction p with
+  | ret a => simp [Sim]; exact hS a
+  | fail e => simp [Sim]
+  | unspecified => simp [Sim]
+  | load a k ih => simp [Sim]; exact ih
+  | store a v m k ih => simp [Sim]; exact ih
+
+end SProg
 end Verif
